@@ -187,7 +187,10 @@ def run_into(chk, tier, seed):
     for tname, fi, mk, text in list_lines(rng, tier):
         b = text if isinstance(text, bytes) else text.encode("utf-8")
         # a line whose name field was removed altogether has no name to report (the parsers then answer '.')
-        named = not (mk in ("drop", "empty", "truncate", "space") and isinstance(fi, int) and fi == {"unix": 6, "unixd": 6, "unixl": 6, "win": 3, "winf": 3, "mlsx": 3}.get(tname, -1))
+        nf = {"unix": 6, "unixd": 6, "unixl": 6, "win": 3, "winf": 3, "mlsx": 3}.get(tname, -1)
+        kinds = mk.split("+")
+        fields = [fi] if len(kinds) == 1 else [fi // 10, fi % 10]
+        named = not any(f == nf and k in ("drop", "empty", "truncate", "space") for f, k in zip(fields, kinds))
         cases.append({"entry": "parse_list_line", "outcome": classify(cl.parse_list_line, b, typed_list, named), "desc": [tname, fi, mk],
                       "steps": 0, "budget": 0, "entries_returned": 0, "lines_sent": 0, "unparsable": 0, "dots": 0})
         cases.append({"entry": "parse_mlsx_line", "outcome": classify(cl.parse_mlsx_line, b, typed_list, named and tname == "mlsx"), "desc": [tname, fi, mk],
